@@ -526,4 +526,26 @@ theorem agree_extra_ne (E : Env) (v : String) (ex : List String) (hv : PlainTok 
   · simp [evalItem, hc, hex]
   · simp [itemCoherent, Single.coherent, itemConstraintString, hm]
 
+/-- `ALIASES.get(name, name)` resolves every name like the reference's alias table -/
+theorem alias_eq_canon (n : String) : aliasName n = Spec.Pep508.canonVar n := by
+  by_cases h1 : n = "os.name"
+  · subst h1; decide
+  by_cases h2 : n = "sys.platform"
+  · subst h2; decide
+  by_cases h3 : n = "platform.version"
+  · subst h3; decide
+  by_cases h4 : n = "platform.machine"
+  · subst h4; decide
+  by_cases h5 : n = "platform.python_implementation"
+  · subst h5; decide
+  by_cases h6 : n = "python_implementation"
+  · subst h6; decide
+  have e1 : ("os.name" == n) = false := beq_eq_false_iff_ne.2 (fun e => h1 e.symm)
+  have e2 : ("sys.platform" == n) = false := beq_eq_false_iff_ne.2 (fun e => h2 e.symm)
+  have e3 : ("platform.version" == n) = false := beq_eq_false_iff_ne.2 (fun e => h3 e.symm)
+  have e4 : ("platform.machine" == n) = false := beq_eq_false_iff_ne.2 (fun e => h4 e.symm)
+  have e5 : ("platform.python_implementation" == n) = false := beq_eq_false_iff_ne.2 (fun e => h5 e.symm)
+  have e6 : ("python_implementation" == n) = false := beq_eq_false_iff_ne.2 (fun e => h6 e.symm)
+  simp [aliasName, Spec.Pep508.canonVar, Gen.markerAliases, Spec.Pep508.refAliases, List.find?, e1, e2, e3, e4, e5, e6]
+
 end Poetry.Marker
